@@ -178,6 +178,81 @@ Theorem C18_big_refines_small :
 Proof. split; [intros h es s; apply r_bigs_refines|intros h m es s; apply sdp_bigs_refines]. Qed.
 Print Assumptions C18_big_refines_small.
 
+(* ------------------------------------------------------------------------------------------------
+   QuicTransport (Net/Shutdown.v Part 5): the cached connection, the single dialing call and its waiters. *)
+Theorem C18_close_idempotent_quic : forall s,
+  exists s', sdq_step s SqClose = Some s' /\ sq_closed s' = true /\ sdq_step s' SqClose = Some s'.
+Proof.
+  intros s. destruct (sdq_close_total s) as [s' [H1 H2]]. exists s'. repeat split; auto.
+  eapply sdq_close_idempotent; eauto.
+Qed.
+Print Assumptions C18_close_idempotent_quic.
+
+(* No leak, QUIC: in every reachable state after Close no connection of the table is open; what a counting
+   dialer can still see open are exactly the results of a dial that returned but whose call has not completed
+   (QdGot true: before the critical section, QdLate true: after it).  Completing the call is enabled from every
+   stage, never touches the tasks, publishes a result, and - the transport being closed - puts a dialled
+   connection into the table CLOSED: the completion step itself closes the late connection. *)
+Theorem C18_no_leak_quic : forall ls s,
+  sdq_run sdq_init ls = Some s -> sq_closed s = true ->
+  (forall k, In k (sq_conns s) -> qc_open k = false) /\
+  sdq_open_count s = length (filter qd_holds_raw (sq_calls s)) /\
+  (forall d dd, nth_error (sq_calls s) d = Some dd ->
+     exists s', sdq_run s (sdq_complete_path s d) = Some s' /\
+                sq_closed s' = true /\
+                (forall k, In k (sq_conns s') -> qc_open k = false) /\
+                (exists dd', nth_error (sq_calls s') d = Some dd' /\ qd_stage dd' = QdEnd /\ qd_holds_raw dd' = false) /\
+                match qd_stage dd with
+                | QdGot true | QdLate true => sq_conns s' = sq_conns s ++ [{| qc_open := false |}]
+                | _ => sq_conns s' = sq_conns s
+                end).
+Proof.
+  intros ls s H Cl. destruct (sdq_no_leak _ _ H Cl) as [A B]. split; [exact A|]. split; [exact B|].
+  intros d dd Ed. pose proof (sdq_reachable_inv _ _ H) as HI.
+  pose proof (Forall_nth_error _ _ _ _ (q_calls _ HI) Ed) as (D1 & _).
+  destruct (sdq_complete s d dd Ed D1) as (s' & Hrun & _ & Hcl & (dd' & Ed' & Sd' & _) & Hconns).
+  exists s'. split; [exact Hrun|]. split; [congruence|]. split.
+  - apply sdq_closed_all_closed; [eapply sdq_run_inv; eauto|congruence].
+  - split; [|apply Hconns; exact Cl]. exists dd'. repeat split; auto. unfold qd_holds_raw. now rewrite Sd'.
+Qed.
+Print Assumptions C18_no_leak_quic.
+
+(* every waiter of a dialing call is woken by the call's completion (in every reachable state, closed or not):
+   after the completion path its wake-up step is enabled and takes it to an exchange on the new connection or to
+   an error - nobody is left waiting on call.done *)
+Theorem C18_quic_waiters_woken : forall ls s t k d,
+  sdq_run sdq_init ls = Some s -> nth_error (sq_tasks s) t = Some k -> qt_stage k = QsWait d ->
+  exists s' s'' k', sdq_run s (sdq_complete_path s d) = Some s' /\
+                    sdq_step s' (SqWake t) = Some s'' /\
+                    nth_error (sq_tasks s'') t = Some k' /\
+                    ((exists c, qt_stage k' = QsHas c true) \/ (qt_stage k' = QsDone /\ qt_res k' <> None)).
+Proof.
+  intros ls s t k d H Ek Sk. pose proof (sdq_reachable_inv _ _ H) as HI.
+  destruct (sdq_waiters_woken s t k d HI Ek Sk) as (s' & s'' & k' & A & B & C & D & _).
+  exists s', s'', k'. auto.
+Qed.
+Print Assumptions C18_quic_waiters_woken.
+
+(* fail, not hang (QUIC): in every reachable closed state every caller still waiting reaches an error by enabled
+   steps; a new exchange fails at its first step *)
+Theorem C18_fail_not_hang_quic : forall ls s,
+  sdq_run sdq_init ls = Some s -> sq_closed s = true ->
+  (forall t k, nth_error (sq_tasks s) t = Some k -> qt_res k = None ->
+     exists path s', sdq_run s path = Some s' /\ sdq_result s' t = Some false) /\
+  (exists s', sdq_run s [SqSpawn; SqGet (length (sq_tasks s))] = Some s' /\
+              sdq_result s' (length (sq_tasks s)) = Some false).
+Proof.
+  intros ls s H Cl. pose proof (sdq_reachable_inv _ _ H) as HI. split.
+  - intros t k Ek R. eapply sdq_fail_not_hang; eauto.
+  - now apply sdq_new_exchange_fails.
+Qed.
+Print Assumptions C18_fail_not_hang_quic.
+
+Theorem C18_big_refines_small_quic : forall h es s,
+  sdq_bigs h sdq_init es = Some s -> exists ls, sdq_run sdq_init ls = Some s.
+Proof. intros h es s. apply sdq_bigs_refines. Qed.
+Print Assumptions C18_big_refines_small_quic.
+
 (* ---------------- non-vacuity ---------------- *)
 (* Close while a dial is in flight whose result arrives later: the late connection is closed on arrival,
    the waiting caller gets an error, nothing stays open *)
@@ -209,3 +284,12 @@ Example C18_example_startup :
   (exists c, run_pinned (cfg_steps true 2 1 1 3 (Some 9)) = Panicked 9 c) /\
   startup_oracle (cfg_steps true 2 1 1 3 (Some 9)) (run (cfg_steps true 2 1 1 3 (Some 9))) = true.
 Proof. vm_compute. repeat split. eexists. reflexivity. Qed.
+
+(* QUIC: Close while the dial is in flight, the dial then SUCCEEDS: the late connection is closed by the
+   call's completion, the waiter gets an error, nothing stays open; a second Close and a new exchange are fine *)
+Example C18_example_quic_late_dial :
+  match sdq_bigs false sdq_init [XSpawn; XSpawn; XClose; XDialOk 0; XClose; XSpawn] with
+  | Some s => (sq_closed s, sdq_open_count s, sdq_result s 0, sdq_result s 1, sdq_result s 2, length (sq_conns s))
+  | None => (false, 99, None, None, None, 0)
+  end = (true, 0, Some false, Some false, Some false, 1).
+Proof. vm_compute. reflexivity. Qed.
